@@ -894,7 +894,8 @@ func StepRun(p *sut.Proc, c StepCase) (res *StepResult) {
 		}
 		switch {
 		case !snap.Found:
-			res.Findings = append(res.Findings, sf([]string{"C07"}, "join/orphaned", c, "%s was answered with a successful join (session %s uuid %s participant %d) and is still connected, but a probe joining by that id gets error %d", cl.who, cl.c.SID, cl.c.UUID, cl.c.PID, snap.Code))
+			// (a session made unjoinable by what happens in another one is also a breach of isolation)
+			res.Findings = append(res.Findings, sf([]string{"C07", "C03"}, "join/orphaned", c, "%s was answered with a successful join (session %s uuid %s participant %d) and is still connected, but a probe joining by that id gets error %d", cl.who, cl.c.SID, cl.c.UUID, cl.c.PID, snap.Code))
 		case snap.Join.SessionUuid != cl.c.UUID:
 			res.Findings = append(res.Findings, sf([]string{"C07", "C10"}, "join/orphaned", c, "%s is in session %s uuid %s but that id now names uuid %s", cl.who, cl.c.SID, cl.c.UUID, snap.Join.SessionUuid))
 		default:
